@@ -395,6 +395,9 @@ class _PmatrxNuclideIO:
         elif order == 2:
             return self._nuclide.linearAnisotropicProduction
         else:
+            if "r" in self._pmatrixIO._fileMode:
+                # reading: the matrix of this order is not there yet
+                return self._nuclide.nOrderProductionMatrix.get(order)
             return self._nuclide.nOrderProductionMatrix[order]
 
     def _setProductionMatrix(self, order, matrix):
